@@ -419,6 +419,15 @@ Definition fail_of (o : output) : output :=
   | OTun id => OTun id | OErr k => OErr k
   end.
 
+(* VerifShiftKeypairAges (verif_device.go): kp.created = kp.created.Add(-d) for every slot *)
+Definition older (d : N) (k : option keypair) : option keypair :=
+  match k with
+  | Some k => Some {| kp_created := kp_created k - d; kp_initiator := kp_initiator k |}
+  | None => None
+  end.
+Definition shiftKeys (d : N) (s : st) : st :=
+  set_kp_next (set_kp_cur s (older d (kp_cur s))) (older d (kp_next (set_kp_cur s (older d (kp_cur s))))).
+
 Inductive input :=
 | IStart                      (* device up: Peer.Start (+ SendKeepalive when persistent keepalive is set) *)
 | IStop                       (* device down: Peer.Stop *)
@@ -427,7 +436,9 @@ Inductive input :=
 | IInit                       (* valid fresh initiation from the peer *)
 | IRecv (d : option N)        (* valid transport message: data packet d, or keepalive *)
 | IFire (k : tid)             (* the runtime runs timer k's AfterFunc closure *)
-| IFail (i : input).          (* i happens while Bind.Send returns an error for every datagram *)
+| IFail (i : input)           (* i happens while Bind.Send returns an error for every datagram *)
+| IShiftKeys (d : N)          (* harness hook VerifShiftKeypairAges: every keypair becomes d older *)
+| ISetAttempts (n : N).       (* harness hook VerifSetHandshakeAttempts: handshakeAttempts := n *)
 
 (* An event: when it runs, what it is, and the two jitter draws (milliseconds). *)
 Record ev := { e_t : N; e_in : input; e_jr : N; e_jn : N }.
@@ -442,6 +453,8 @@ Fixpoint step_in (now jr jn : N) (i : input) (s : st) : st * list output :=
   | IRecv d => recvTransport now jr jn d s
   | IFire k => fire now jr jn k s
   | IFail i' => let '(s', o) := step_in now jr jn i' s in (s', map fail_of o)
+  | IShiftKeys d => (shiftKeys d s, [])
+  | ISetAttempts n => (set_attempts s n, [])
   end.
 
 Definition step (s : st) (e : ev) : st * list output :=
